@@ -556,6 +556,7 @@ def gen_all():
     g.func("src/records/opt.rs", "ttl", "opt_ttl",
            [("rcode_extension", ["self.rcode_extension"], "u8"), ("version", ["self.version"], "u8"),
             ("flags", ["self.flags"], "u16")])
+    g.func("src/records/opt.rs", "dnssec_ok", "opt_dnssec_ok", [("flags", ["self.flags"], "u16")])
     g.func("src/message/rcode.rs", "extended", "rcode_extended",
            [("base", ["base.0"], "u16"), ("extension", ["extension"], "u8")],
            body_filter=lambda b: re.sub(r"^RCode\((.*)\)$", r"\1", b.strip(), flags=re.S))
